@@ -149,19 +149,36 @@ fn constructor(rep: &mut Report, r: &mut Rng, n: u64) {
         }
     };
     let l4 = mmu.l4_addr();
+    let mut last_alias: Option<usize> = None;
     for i in 0..n {
         rep.eval();
         let mut st = arena.st();
+        if let Some(k) = last_alias.take() {
+            st.write(0, k, 0);
+        }
         // slot contents
         let slot_kind = r.below(5);
         let slot_raw = match slot_kind {
             0 => root_phys | P | W,
-            1 => root_phys | P | (r.next() & 0xffe & !0x80) | (r.next() & (0x7ff << 52)), // other flag bits do not matter
+            1 => root_phys | P | (r.next() & 0xffe) | (r.next() & (0x7ff << 52)), // other flag bits (bit 7 included) do not matter
             2 => root_phys | W,                                                           // self without PRESENT
             3 => other_phys | P | W,                                                      // other frame
             _ => 0,
         };
         st.write(0, ri as usize, slot_raw);
+        // the other 511 slots are somebody else's business: now and then one of them names the root frame as well (an alias
+        // mapping of the level-4 table, below or above the recursive slot)
+        let alias = if r.chance(1, 3) {
+            let mut k = r.below(512) as usize;
+            if k == ri as usize {
+                k = (k + 1) % 512;
+            }
+            st.write(0, k, root_phys | P | W);
+            Some(k)
+        } else {
+            None
+        };
+        last_alias = alias;
         // emulated CR3: that frame with arbitrary low 12 bits, or another frame
         let cr3_self = r.chance(2, 3);
         let cr3 = if cr3_self { root_phys | (r.next() & 0xfff) } else { (if r.chance(1, 2) { other_phys } else { r.next() & 0x000f_ffff_ffff_f000 }) | (r.next() & 0xfff) };
@@ -182,7 +199,7 @@ fn constructor(rep: &mut Report, r: &mut Rng, n: u64) {
                 J::obj(vec![("table_address", J::hex(l4)), ("slot", J::hex(slot_raw)), ("cr3", J::hex(cr3)), ("root_frame", J::hex(root_phys)), ("events", J::A(evs.iter().map(|e| J::s(trapemu::fmt_event(e))).collect()))]),
             );
         }
-        rep.class(&format!("new|recursive|slot={}|cr3={}|{}", ["self+P", "self+P+flags", "self-noP", "other", "zero"][slot_kind as usize], if cr3_self { "self" } else { "other" }, res));
+        rep.class(&format!("new|recursive|slot={}|cr3={}|{}|alias={}", ["self+P", "self+P+flags", "self-noP", "other", "zero"][slot_kind as usize], if cr3_self { "self" } else { "other" }, res, match alias { None => "none", Some(k) if k < ri as usize => "below", _ => "above" }));
         // "the frame currently loaded": two constructions in one function with a switch of the root in between are two
         // looks at the root register, each judged against what is loaded at that moment
         if i % 4 == 1 {
@@ -268,6 +285,10 @@ fn constructor(rep: &mut Report, r: &mut Rng, n: u64) {
         }
         // the index the mapper then uses is that common index: its first access goes to [R,R,R,R]
         if i % 8 == 0 {
+            // (this sub-check looks at which tables a translation touches: no alias slots in the way)
+            if let Some(k) = alias {
+                st.write(0, k, 0);
+            }
             st.write(0, ri as usize, root_phys | P | W);
             trapemu::regs().cr[3] = root_phys;
             mmu.flush();
